@@ -117,6 +117,11 @@ structure World where
   inUse : Nat → Nat
   /-- open transactions only a traceback still references (base connection ids) -/
   zombies : List Nat
+  /-- `DBConnection.autoCommit` of connection `c` (`'exception'` is truthy) -/
+  ac : Nat → Bool
+  /-- autocommit mode of the pooled low-level connection of `c` (`Transaction.__init__` switches it off;
+      `_makeObsolete` switches it back on only `if self._dbConnection.autoCommit`, and releases it in any case) -/
+  poolAuto : Nat → Bool
 
 inductive Outcome
   | returned (v : Nat)
@@ -175,20 +180,22 @@ def doInTx (w : World) (tid : Nat) (b : Body) : World × Outcome :=
       match r.2 with
       | none =>
         -- commit(close=True): the view becomes the committed state, the low-level connection is released
-        ({ w with db := r.1.txv, hub := hub2 }, .returned b.ret)
+        ({ w with db := r.1.txv, hub := hub2, poolAuto := upd w.poolAuto c (w.ac c) }, .returned b.ret)
       | some e =>
         match e.kind with
         | .exc =>
           -- rollback(): the write set is dropped, the low-level connection is released
-          ({ w with db := r.1.db, hub := hub2 }, .raised e)
+          ({ w with db := r.1.db, hub := hub2, poolAuto := upd w.poolAuto c (w.ac c) }, .raised e)
         | .baseOnly =>
           -- nobody catches it: the transaction stays open until its last reference dies
-          ({ w with db := r.1.db, hub := hub2, inUse := upd w.inUse c (w.inUse c + 1), zombies := c :: w.zombies },
+          ({ w with db := r.1.db, hub := hub2, inUse := upd w.inUse c (w.inUse c + 1), zombies := c :: w.zombies,
+                    poolAuto := upd w.poolAuto c false },
            .raised e)
 
 /-- the traceback is dropped: `Transaction.__del__` rolls the open transactions back and releases their
     low-level connections -/
 def collect (w : World) : World :=
-  { w with inUse := w.zombies.foldl (fun f c => upd f c (f c - 1)) w.inUse, zombies := [] }
+  { w with inUse := w.zombies.foldl (fun f c => upd f c (f c - 1)) w.inUse, zombies := [],
+           poolAuto := w.zombies.foldl (fun f c => upd f c (w.ac c)) w.poolAuto }
 
 end SqlObjVerif.Hub
